@@ -225,6 +225,66 @@ func c15Sequential(r *rand.Rand, nops int, sh *core.Shard) (ops []c15op, sig, wh
 	return ops, "", ""
 }
 
+// c15Churn: a stable set of upstreams while one more upstream of the same
+// endpoint connects and disconnects between requests (a flapping client). With a
+// correct round-robin every stable member keeps being selected; the oracle is a
+// starvation bound on the number of selections of that endpoint a continuous
+// member has to wait.
+func c15Churn(stable, selectsWhileUp, selectsWhileDown, iterations int, sh *core.Shard) (sig, what string) {
+	rg := newRig()
+	const ep = "churn"
+	var members []*fakeUp
+	for i := 0; i < stable; i++ {
+		u := &fakeUp{ep: ep, id: i + 1}
+		members = append(members, u)
+		rg.mgr.AddConn(u)
+	}
+	wait := map[*fakeUp]int{}
+	maxWait := 0
+	sel := func() (string, string) {
+		got, ok := rg.mgr.Select(ep, false)
+		fu, isFake := got.(*fakeUp)
+		if !ok || !isFake {
+			return "select-missed", fmt.Sprintf("Select returned %s with %d stable members registered", describe(got, ok), stable)
+		}
+		for _, m := range members {
+			if m == fu {
+				wait[m] = 0
+			} else {
+				wait[m]++
+				if wait[m] > maxWait {
+					maxWait = wait[m]
+				}
+			}
+		}
+		return "", ""
+	}
+	bound := 3*(stable+1) + 3
+	for it := 0; it < iterations; it++ {
+		x := &fakeUp{ep: ep, id: 1000 + it}
+		rg.mgr.AddConn(x)
+		for k := 0; k < selectsWhileUp; k++ {
+			if s, w := sel(); s != "" {
+				return s, w
+			}
+		}
+		rg.mgr.RemoveConn(x)
+		for k := 0; k < selectsWhileDown; k++ {
+			if s, w := sel(); s != "" {
+				return s, w
+			}
+		}
+		for _, m := range members {
+			if wait[m] > bound {
+				return "starved", fmt.Sprintf("%d stable upstreams while another one of the same endpoint connects (then %d selections) and disconnects (then %d selections): upstream u%d has not been selected in the last %d selections of the endpoint (bound %d)", stable, selectsWhileUp, selectsWhileDown, m.id, wait[m], bound)
+			}
+		}
+	}
+	sh.Max("churn_max_wait", int64(maxWait))
+	sh.Count("churn_patterns", 1)
+	return "", ""
+}
+
 // ---- concurrent histories checked with porcupine -----------------------------------------
 
 type pIn struct {
@@ -434,6 +494,25 @@ func runC15(sh *core.Shard, a props.Args) {
 			sh.Nontrivial(core.Hash("seq", fmt.Sprint(ops)))
 		}
 	}
+	// churn patterns, enumerated
+	if a.Shard == 0 {
+		for stable := 1; stable <= 6; stable++ {
+			for up := 0; up <= 4; up++ {
+				for down := 0; down <= 4; down++ {
+					if up+down == 0 {
+						continue
+					}
+					sig, what := c15Churn(stable, up, down, 60, sh)
+					sh.Eval()
+					if sig != "" {
+						sh.Violate(sig, what, map[string]any{"kind": "churn", "stable": stable, "selects_while_up": up, "selects_while_down": down})
+						return
+					}
+					sh.Nontrivial(core.Hash("churn", stable, up, down))
+				}
+			}
+		}
+	}
 	for i := 0; i < nconc; i++ {
 		if !a.Mine(i) {
 			continue
@@ -467,7 +546,8 @@ func init() {
 			"an upstream object is registered at most once",
 			"round-robin order itself is not modelled in the concurrent check (only validity); fairness is judged on sequential histories",
 		},
-		RequireCounters: []string{"fair_windows_checked", "remote_selections", "concurrent_histories_checked", "porcupine_operations"},
+		RequireCounters: []string{"fair_windows_checked", "remote_selections", "concurrent_histories_checked", "porcupine_operations", "churn_patterns"},
+		MaxCounters:     []string{"churn_max_wait"},
 		Run:             runC15,
 	})
 }
